@@ -9,7 +9,8 @@ import traceback
 from .tlc import MachineryError
 
 ROOT = os.path.dirname(os.path.dirname(os.path.abspath(__file__)))
-EVIDENCE_DIR = os.path.join(ROOT, 'evidence')
+# evidence describes runs against /repo itself; self-tests on mutated scratch copies (EAO_REPO) write theirs under out/
+EVIDENCE_DIR = os.path.join(ROOT, 'evidence') if os.environ.get('EAO_REPO', '/repo') == '/repo' else os.path.join(ROOT, 'out', 'evidence_scratch')
 REPLAY_DIR = os.path.join(ROOT, 'out', 'replays')
 FINDINGS_FILE = os.path.join(ROOT, 'known_findings.json')
 
